@@ -777,6 +777,7 @@ class TraceManager:
         removed = self.refgraph.remove_with_descs(ref)
         for node in removed:
             descs = self.tracegraph.remove_with_descs(node)
+            self.refgraph.remove_with_referred(descs)
             for desc in descs:
                 if node_has_key(desc):
                     desc[OBJ].on_clear_trace(desc[KEY])
